@@ -332,6 +332,24 @@ def task_op(op):
         d['reason'] = '; '.join(f'from {k}: {v}' for k, v in bad.items())
     clause(col, 'no_exception_from_consistent_states', res,
            lambda r: r.outcome == 'return' or (op in ('misfit', 'gradient', 'jvec') and False))
+    # the computed flag stands for ALL source-frequency pairs: only a full compute() may set it
+    def flag_ok(r):
+        if r.outcome != 'return':
+            return None
+        sim = r.state['sim']
+        if sim.fields['_computed'] is not True or r.state['pre'] not in ('plain', 'partial'):
+            return True
+        full = False
+        for e in r.events:
+            if e['kind'] in ('call', 'call_inlined') and str(e['name']).endswith('Simulation.compute'):
+                kw = dict(e['kwargs'])
+                pos = list(e['args'])[1:] if e['args'] and e['args'][0] is sim else list(e['args'])
+                src = kw.get('source', pos[0] if len(pos) > 0 else None)
+                frq = kw.get('frequency', pos[1] if len(pos) > 1 else None)
+                full = full or (src is None and frq is None)
+        return full or op == 'compute'
+    clause(col, 'computed_flag_is_only_set_by_a_computation_of_all_pairs', res, flag_ok)
+
     # tolerances handed to the solver tasks
     def tol_ok(r):
         gs = []
